@@ -276,6 +276,14 @@ func TestCrashSummary(t *testing.T) {
 	if !ok || !jcm || s != "fatal error: out of memory @ github.com/jcmturner/rpc/v2/ndr" {
 		t.Fatalf("%q %v %v", s, jcm, ok)
 	}
+	// an allocation refused inside the garbage collector: thrown on the system stack, no goroutine was running; a janitor that
+	// merely exists must not be blamed
+	gc := "runtime: out of memory: cannot allocate 4194304-byte block (473563136 in use)\nfatal error: out of memory\n\nruntime stack:\nruntime.throw({0x7f7302?, 0x438c3a?})\n\t/go/src/runtime/panic.go:1229 +0x48\nruntime.getempty()\n\t/go/src/runtime/mgcwork.go:453 +0x1a5\n\n" +
+		"goroutine 19 gp=0x1 m=nil [sleep]:\ntime.Sleep(0x1)\n\t/go/src/runtime/time.go:363 +0x165\ngithub.com/jcmturner/gokrb5/v8/service.GetReplayCache.func1.1()\n\t/repo/v8/service/cache.go:78 +0x2f\n\n" +
+		"goroutine 7 gp=0x2 m=nil [GC worker (idle)]:\nruntime.gopark(0x0?, 0x0?, 0x0?, 0x0?, 0x0?)\n\t/go/src/runtime/proc.go:460 +0xce\n"
+	if s, jcm, ok := CrashSummary(gc); !ok || jcm || s != "fatal error: out of memory @ " {
+		t.Fatalf("%q %v %v", s, jcm, ok)
+	}
 	if _, _, ok := CrashSummary("PASS\nok\n"); ok {
 		t.Fatal("summary of a clean log")
 	}
